@@ -163,7 +163,9 @@ class LinearOperator(Operator[torch.Tensor, tuple[torch.Tensor]]):
         # operator norm is a strictly positive number. This ensures that the first time the
         # change between the old and the new estimate of the operator norm is non-zero and
         # thus prevents the loop from exiting despite a non-correct estimate.
-        op_norm_old = torch.zeros(*tuple([1 for _ in range(vector.ndim)]), device=vector.device)
+        op_norm_old = torch.zeros(
+            *tuple([1 for _ in range(vector.ndim)]), device=vector.device, dtype=norm_initial_value.dtype
+        )
 
         dim = tuple(dim) if dim is not None else dim
         for _ in range(max_iterations):
